@@ -117,12 +117,19 @@ class H2Client:
             client_side=True, header_encoding=None, validate_outbound_headers=validate_outbound,
             normalize_outbound_headers=validate_outbound))
         settings = {h2.settings.SettingCodes.ENABLE_PUSH: int(enable_push)}
-        if initial_window is not None:
-            settings[h2.settings.SettingCodes.INITIAL_WINDOW_SIZE] = initial_window
-        if max_frame is not None:
-            settings[h2.settings.SettingCodes.MAX_FRAME_SIZE] = max_frame
         self.conn.local_settings.update(settings)
         self.conn.initiate_connection()
+        # INITIAL_WINDOW_SIZE / MAX_FRAME_SIZE must actually reach the server: `local_settings.update()` before
+        # `initiate_connection()` only queues a *pending* local value (h2 sends the current ones), so the client would
+        # believe in a window the server never heard of.  A second SETTINGS frame right behind the preface carries them;
+        # the client applies them when the server's ack arrives (the server applies them on receipt).
+        wire = {}
+        if initial_window is not None:
+            wire[h2.settings.SettingCodes.INITIAL_WINDOW_SIZE] = initial_window
+        if max_frame is not None:
+            wire[h2.settings.SettingCodes.MAX_FRAME_SIZE] = max_frame
+        if wire:
+            self.conn.update_settings(wire)
         self.auto_window = auto_window
         self.streams: Dict[int, dict] = {}
         self.goaway: Optional[dict] = None
